@@ -3,6 +3,7 @@
 package verifsim
 
 import (
+	"bytes"
 	"context"
 	"fmt"
 	"net/http"
@@ -95,6 +96,7 @@ func parseTilePath(p string) (h, l int, n int64, w int, ok bool) {
 }
 
 type tileStub struct {
+	xsigs  int // extra signature lines by unknown keys on the published checkpoint
 	mu     sync.Mutex
 	tree   *RefTree
 	size   uint64
@@ -121,7 +123,12 @@ func (s *tileStub) checkpoint() []byte {
 	} else {
 		line = s.key.SignEd25519(text)
 	}
-	return MakeNote(text, line)
+	lines := []string{line}
+	for i := 0; i < s.xsigs; i++ {
+		// other parties' signature lines on the published checkpoint (other witnesses' cosignatures, say): unknown to the reader
+		lines = append(lines, sigLine(fmt.Sprintf("other-witness-%d", i), uint32(0x1000+i), bytes.Repeat([]byte{byte(i)}, 72)))
+	}
+	return MakeNote(text, lines...)
 }
 
 func (s *tileStub) tile(h, l int, n int64, w int) ([]byte, bool) {
